@@ -72,7 +72,7 @@ type parent struct {
 
 	mu       sync.Mutex
 	cond     *sync.Cond
-	pending  []*Case
+	pending  [][]*Case       // scheduling units: single cases and sibling groups
 	busy     map[string]bool // listen addresses in use by a running case
 	running  map[int]*caseRes
 	finished map[int]*caseRes
@@ -98,20 +98,33 @@ func lockKeys(c *Case, e Expect) []string {
 	return ks
 }
 
-// nextJob picks the first pending case whose listen address is free, opens its
-// servers and returns the job; nil when everything has been handed out.
-func (p *parent) nextJob() *Job {
+// unitKeys: lock keys of a scheduling unit (a single case or a sibling group).
+func unitKeys(u []*Case) []string {
+	var ks []string
+	seen := map[string]bool{}
+	for _, c := range u {
+		for _, k := range lockKeys(c, c.expect()) {
+			if !seen[k] {
+				seen[k] = true
+				ks = append(ks, k)
+			}
+		}
+	}
+	return ks
+}
+
+// nextSet picks the first pending unit whose listen addresses are free, opens
+// its servers and returns the jobs; nil when everything has been handed out.
+func (p *parent) nextSet() *JobSet {
 	p.mu.Lock()
-	var c *Case
-	var e Expect
-	for c == nil {
+	var unit []*Case
+	for unit == nil {
 		if len(p.pending) == 0 {
 			p.mu.Unlock()
 			return nil
 		}
 		for i, cand := range p.pending {
-			ce := cand.expect()
-			ks := lockKeys(cand, ce)
+			ks := unitKeys(cand)
 			free := true
 			for _, k := range ks {
 				if p.busy[k] {
@@ -119,7 +132,7 @@ func (p *parent) nextJob() *Job {
 				}
 			}
 			if free {
-				c, e = cand, ce
+				unit = cand
 				for _, k := range ks {
 					p.busy[k] = true
 				}
@@ -127,40 +140,68 @@ func (p *parent) nextJob() *Job {
 				break
 			}
 		}
-		if c == nil {
+		if unit == nil {
 			p.cond.Wait()
 		}
 	}
-	p.handed++
+	p.handed += len(unit)
 	p.mu.Unlock()
 
-	cr := &caseRes{c: c, exp: e, ca: p.ca}
-	cr.open()
-	p.mu.Lock()
-	p.running[c.ID] = cr
-	p.mu.Unlock()
-	to := 300
-	if e.Reachable {
-		to = 1500
+	set := &JobSet{SharedTLS: unit[0].GroupKind == "shared-tlsconfig"}
+	var owner *caseRes
+	for _, c := range unit {
+		e := c.expect()
+		cr := &caseRes{c: c, exp: e, ca: p.ca}
+		if c.GroupKind == "same-host" {
+			// one bootstrap server for the whole group
+			if owner == nil {
+				owner = cr
+			} else {
+				cr.bootOwner = owner
+			}
+		}
+		cr.open()
+		p.mu.Lock()
+		p.running[c.ID] = cr
+		p.mu.Unlock()
+		to := 300
+		if e.Reachable {
+			to = 1500
+		}
+		set.Jobs = append(set.Jobs, Job{ID: c.ID, Addr: c.Addr, DialAddr: c.DialAddr, Socks5: cr.socksAddr,
+			Bootstrap: cr.bootAddr, BootVer: c.BootVer, TimeoutMS: to})
 	}
-	return &Job{ID: c.ID, Addr: c.Addr, DialAddr: c.DialAddr, Socks5: cr.socksAddr,
-		Bootstrap: cr.bootAddr, BootVer: c.BootVer, TimeoutMS: to}
+	return set
 }
 
-func (p *parent) finish(res *Result) {
-	p.mu.Lock()
-	cr := p.running[res.ID]
-	delete(p.running, res.ID)
-	p.mu.Unlock()
-	if cr == nil {
-		return
+// finish closes the servers of a finished unit and releases its addresses.
+func (p *parent) finish(results []Result) {
+	var unit []*Case
+	drain := false
+	for i := range results {
+		res := &results[i]
+		p.mu.Lock()
+		cr := p.running[res.ID]
+		delete(p.running, res.ID)
+		p.mu.Unlock()
+		if cr == nil {
+			continue
+		}
+		cr.close()
+		unit = append(unit, cr.c)
+		p.mu.Lock()
+		p.results[res.ID] = res
+		p.finished[res.ID] = cr
+		p.mu.Unlock()
+		// a DoH / DoH3 request that was still in flight when the case ended keeps
+		// running for up to 6 s after Close (mosdns detaches it from the caller's
+		// context); a refused / failed one is over
+		inFlight := strings.Contains(res.ExchErr, "context deadline exceeded") || strings.Contains(res.ExchErr, "context canceled")
+		if (cr.c.Scheme == "https" || cr.c.Scheme == "h3") && !cr.c.AmbigPort && res.NewErr == "" && !res.ReplyOK && inFlight {
+			drain = true
+		}
 	}
-	cr.close()
-	keys := lockKeys(cr.c, cr.exp)
-	p.mu.Lock()
-	p.results[res.ID] = res
-	p.finished[res.ID] = cr
-	p.mu.Unlock()
+	keys := unitKeys(unit)
 	release := func() {
 		p.mu.Lock()
 		for _, k := range keys {
@@ -169,18 +210,12 @@ func (p *parent) finish(res *Result) {
 		p.cond.Broadcast()
 		p.mu.Unlock()
 	}
-	// Drain: a DoH / DoH3 request that did not complete keeps running (and, for
-	// some urls, redialing) for up to 6 s after Close, because mosdns detaches
-	// it from the caller's context. The shared [::1]:port of such a case is
-	// handed to the next case only after that time. (Not needed for soundness -
-	// foreign connections are recognised by their source port - but it keeps
-	// other cases' listeners clean.)
-	// Only a request that was still in flight when the case ended can linger
-	// (context error); a refused / failed one is over. Ambiguous-literal urls -
-	// the ones whose DoH transport redials in a loop - run at the very end of the
-	// schedule among themselves (see main) and their names are never judged.
-	inFlight := strings.Contains(res.ExchErr, "context deadline exceeded") || strings.Contains(res.ExchErr, "context canceled")
-	if len(keys) > 0 && (cr.c.Scheme == "https" || cr.c.Scheme == "h3") && !cr.c.AmbigPort && res.NewErr == "" && !res.ReplyOK && inFlight {
+	// Drain: the shared [::1]:port of such a case is handed to the next case only
+	// after those 6 s. (Not needed for soundness - foreign connections are
+	// recognised by their source port - but it keeps other cases' listeners clean.
+	// Ambiguous-literal urls, whose DoH transport redials in a loop, run at the very
+	// end of the schedule among themselves and their names are never judged.)
+	if drain && len(keys) > 0 {
 		p.mu.Lock()
 		p.drains++
 		n := p.drains
@@ -202,15 +237,15 @@ func (p *parent) serve(conn net.Conn) {
 		if err := dec.Decode(&rq); err != nil {
 			return
 		}
-		if rq.Res != nil {
+		if len(rq.Res) > 0 {
 			p.finish(rq.Res)
 		}
-		job := p.nextJob()
-		if job == nil {
-			_ = enc.Encode(Job{Done: true})
+		set := p.nextSet()
+		if set == nil {
+			_ = enc.Encode(JobSet{Done: true})
 			return
 		}
-		if err := enc.Encode(job); err != nil {
+		if err := enc.Encode(set); err != nil {
 			return
 		}
 	}
@@ -307,6 +342,9 @@ type witness struct {
 	Observed *Obs           `json:"observed_by_harness_servers"`
 	Trace    []destEvent    `json:"trace_destinations"`
 	Problems []string       `json:"problems,omitempty"`
+	// Siblings: the whole group in creation order when the case is a member of one
+	// (replay re-creates all of them)
+	Siblings []*Case `json:"sibling_group,omitempty"`
 }
 
 func expSummary(c *Case, e Expect, cr *caseRes) map[string]any {
@@ -507,8 +545,12 @@ func judge(c *Case, e Expect, res *Result, cr *caseRes, evs []destEvent, own map
 		}
 	}
 
-	// (4) bootstrap questions
-	for _, b := range o.Boot {
+	// (4) bootstrap questions (siblings naming the same host share one server)
+	boot := o.Boot
+	if cr.bootOwner != nil {
+		boot = cr.bootOwner.obs.Boot
+	}
+	for _, b := range boot {
 		switch {
 		case e.NetIsName:
 			if strings.EqualFold(b.Name, dns.Fqdn(e.NetName)) {
@@ -691,7 +733,8 @@ func main() {
 		"(IPv4 loopback/doc, bracketed IPv6 compressed/full/zero-run at start/end/v4-mapped/upper-case, bare IPv6, hostname) x " +
 		"{no port,1,53,443,853,65535,random} x {no dial_addr, IP, IP:port, bare IPv6, [IPv6]:port, host, host:port} x {path,none} x {direct, SOCKS5, bootstrap v4/v6}; " +
 		"scheme x host form cycled systematically, rest drawn from the PRNG; every 7th case carries a port that cannot be honoured " +
-		"(65536, 65589, 66389, 70000, 99999, 2^32+53, 2^64+53, empty, non-numeric in the url or dial_addr, negative in dial_addr) and must be rejected. A case is non-trivial when " +
+		"(65536, 65589, 66389, 70000, 99999, 2^32+53, 2^64+53, empty, non-numeric in the url or dial_addr, negative in dial_addr) and must be rejected; every 11th slot is a sibling group of 2-3 upstreams created in sequence " +
+		"(one shared *tls.Config without ServerName and different url hosts / same host name + same bootstrap server and different scheme or port), each member judged on its own expectation. A case is non-trivial when " +
 		"it must be rejected and NewUpstream's verdict was observed, or when NewUpstream accepted it and at least one " +
 		"destination it produced was positively observed (traced sockaddr on a socket carrying the case's SO_MARK, SOCKS5 CONNECT, bootstrap question) and compared; " +
 		"distinct = distinct (addr, dial_addr, proxy/bootstrap mode) inputs")
@@ -702,14 +745,22 @@ func main() {
 	var cases []*Case
 	if rep.ReplayFile != "" {
 		var w struct {
-			Case *Case `json:"case"`
+			Case     *Case   `json:"case"`
+			Siblings []*Case `json:"sibling_group"`
 		}
 		if err := rep.LoadReplay(&w); err != nil || w.Case == nil {
 			rep.Inconclusive("cannot load replay file: %v", err)
 			rep.Finish()
 		}
-		w.Case.ID = 0
-		cases = []*Case{w.Case}
+		if len(w.Siblings) > 0 {
+			for k, m := range w.Siblings {
+				m.ID, m.Group = k, 0
+			}
+			cases = w.Siblings
+		} else {
+			w.Case.ID = 0
+			cases = []*Case{w.Case}
+		}
 	} else {
 		cases = genCases(rep.Seed, rep.Pick(1600, 30000))
 	}
@@ -741,12 +792,20 @@ func main() {
 	// schedule: cases whose DoH transport is known to keep redialing after Close
 	// (https / h3 with an ambiguous bare-IPv6:port url) go last, so that their
 	// late connections cannot meet any other case's listener
-	var first, last []*Case
-	for _, c := range cases {
+	var first, last [][]*Case
+	for i := 0; i < len(cases); {
+		c := cases[i]
+		unit := []*Case{c}
+		if c.GroupKind != "" {
+			for j := i + 1; j < len(cases) && cases[j].GroupKind == c.GroupKind && cases[j].Group == c.Group; j++ {
+				unit = append(unit, cases[j])
+			}
+		}
+		i += len(unit)
 		if (c.Scheme == "https" || c.Scheme == "h3") && c.AmbigPort && len(lockKeys(c, c.expect())) > 0 {
-			last = append(last, c)
+			last = append(last, unit)
 		} else {
-			first = append(first, c)
+			first = append(first, unit)
 		}
 	}
 	p := &parent{ca: ca, cases: cases, pending: append(first, last...), busy: map[string]bool{},
@@ -975,13 +1034,23 @@ func evaluate(p *parent, tr *traceResult) {
 			evs = evs[:12]
 		}
 		w := witness{Case: c, Expected: expSummary(c, e, cr), Result: res, Observed: o, Trace: evs}
+		if c.GroupKind != "" {
+			for _, m := range cases {
+				if m.GroupKind == c.GroupKind && m.Group == c.Group {
+					w.Siblings = append(w.Siblings, m)
+				}
+			}
+			if c.Order > 0 {
+				rep.Count("sibling_"+c.GroupKind+"_later_members_judged", 1)
+			}
+		}
 		if len(probs) > 0 {
 			for _, pr := range probs {
 				w.Problems = append(w.Problems, pr.class+": "+pr.text)
 			}
 			seen := map[string]bool{}
 			for _, pr := range probs {
-				key := pr.class + "-" + sn + "-" + pr.form
+				key := pr.class + "-" + sn + "-" + pr.form + c.siblingSuffix()
 				if seen[key] {
 					continue
 				}
@@ -1010,7 +1079,7 @@ func evaluate(p *parent, tr *traceResult) {
 	if rep.ReplayFile == "" {
 		need := []string{"strace_inet_destinations", "trace_dest_attributed_by_so_mark", "socks5_connects", "bootstrap_questions",
 			"listener_udp_datagrams", "listener_tcp_accepts", "listener_tls_clienthellos", "listener_quic_clienthellos",
-			"listener_http_requests", "own_connections_judged", "unhonourable_address_rejected", "handshake_ok_ip_san_only", "handshake_ok_dns_san_only", "clienthello_sni_equals_expected"}
+			"listener_http_requests", "own_connections_judged", "sibling_shared-tlsconfig_later_members_judged", "sibling_same-host_later_members_judged", "unhonourable_address_rejected", "handshake_ok_ip_san_only", "handshake_ok_dns_san_only", "clienthello_sni_equals_expected"}
 		sort.Strings(need)
 		for _, k := range need {
 			if rep.Get(k) == 0 {
